@@ -8,6 +8,7 @@ LEVEL = "exploration"
 SHARDS = {"quick": 4, "thorough": 16}
 TIMEOUT = {"quick": 600, "thorough": 1800}
 ALPHABET = "0123456789abcdefghijklmnopqrstuvwxyz./\\,:-"
+MIN_EVALUATIONS = {"quick": 150000, "thorough": 150000}  # fewer oracle evaluations than this means the workload collapsed: inconclusive
 RULE = ("routes generated from the documented grammar (hosts: IPv4 / names; optional :port 1..65534; 0-4 hops; ports by every alias "
         "or number 1..14; links 0..255 or dotted quads; every separator mix; auto-slot shortcuts for Logix/SLC) - for each route 8 "
         "spellings are generated together and each must yield the reference host, port and route bytes; every single-character "
